@@ -13,6 +13,8 @@ def _plt(work, name, seed, **kw):
     g = dict(seed=seed, ndims=3, nlevels=2, bf=4, base_blocks=(2, 2), maxsz=4, names=["f0", "f1", "f2"],
              maxfiles=4, payload="random")
     g.update(kw)
+    if seed % 2 == 1:
+        g.setdefault("file_id_base", "mixed")      # file numbers of five and six digits at one level
     m = gen.gen_model(**g)
     m.genparams = dict(g)
     # make sure some level has several files (several tasks per pool call)
@@ -20,7 +22,7 @@ def _plt(work, name, seed, **kw):
     for lv in range(m.nlevels):
         nb = len(m.boxes[lv])
         if nb >= 2 and m.nfiles(lv) < 2:
-            m.layout[lv] = gen._layout(rng, nb, min(nb, 3), True)
+            m.layout[lv] = gen._layout(rng, nb, min(nb, 3), True, 4, g.get("file_id_base", 0))
     p = os.path.join(work, name)
     gen.write_plotfile(m, p)
     if seed % 2 == 0:
